@@ -3,6 +3,7 @@ CONSTANTS
   Handles = {"h1", "h2"}
   ProcOf <- ProcSep
   Writers = {"w1", "w2"}
+  Foreign = {"f1"}
   MaxCommits = 2
   MaxOps = 2
 VIEW view
